@@ -239,6 +239,14 @@ def unbound_after_try_obligations(ctx, rep, rule):
                                 and not any(isinstance(x, ast.Name) and x.id == name and isinstance(x.ctx, ast.Load) for x in ast.walk(first_use.value)):
                             continue
                         found.append((f, st, h, name))
+                for h in st.handlers:
+                    # `except X as name`: the name is deleted when the handler ends - whatever it held before the try is gone too
+                    if h.name and ends_normally(h.body) and h.name in read_after:
+                        first = next((a for a in after if any(isinstance(x, ast.Name) and x.id == h.name for x in ast.walk(a))), None)
+                        rebinds = isinstance(first, ast.Assign) and any(isinstance(t, ast.Name) and t.id == h.name for t in first.targets) \
+                            and not any(isinstance(x, ast.Name) and x.id == h.name and isinstance(x.ctx, ast.Load) for x in ast.walk(first.value))
+                        if not rebinds:
+                            found.append((f, st, h, h.name))
                 for sub in (st.body, st.orelse, st.finalbody):
                     scan_block(f, sub, bound)
                 for h in st.handlers:
@@ -273,6 +281,49 @@ def unbound_after_try_obligations(ctx, rep, rule):
         rep.ok(rule, f"every name read after a try statement is bound on all ways out of it [{n_try} try statements]", "pygopherd", "", key=f"{rule}|none")
 
 
+
+def empty_sequence_obligations(ctx, rep, rule):
+    """A listing in which every entry was skipped is an empty menu, not an error: `max()` / `min()` / `[0]` / `next()` over the
+    entry collection need a default or a guard on that same collection (a guard on the list of *names* does not help - names can
+    all be dropped as unservable)."""
+    prog = ctx.prog
+    from ..structure import enclosing
+
+    n = 0
+    found = []
+    for f in prog.all_functions():
+        if not f.module.name.startswith("pygopherd.handlers") or ".tests" in f.module.name:
+            continue
+        for c in ast.walk(f.node):
+            if not (isinstance(c, ast.Call) and dotted(c.func) in ("max", "min") and len(c.args) == 1 and not any(k.arg == "default" for k in c.keywords)):
+                continue
+            arg = c.args[0]
+            srcs = {norm(g.iter) for g in arg.generators} if isinstance(arg, (ast.GeneratorExp, ast.ListComp, ast.SetComp)) else {norm(arg)}
+            if isinstance(arg, (ast.Tuple, ast.List)) and arg.elts:
+                continue
+            n += 1
+            guarded = False
+            for anc, field in enclosing(f.node, c):
+                if isinstance(anc, ast.If) and field == "body" and any(sx in norm(anc.test) for sx in srcs):
+                    guarded = True
+            # an earlier `if not <same collection>: return`
+            for st in ast.walk(f.node):
+                if isinstance(st, ast.If) and st.lineno < c.lineno and st.body and isinstance(st.body[-1], (ast.Return, ast.Raise, ast.Continue)) \
+                        and any(sx in norm(st.test) for sx in srcs):
+                    guarded = True
+            for tr in enclosing_tries(f.node, c):
+                if any(catches(h, "ValueError") for h in tr.handlers):
+                    guarded = True
+            if not guarded:
+                found.append((f, c, sorted(srcs)))
+    for f, c, srcs in found:
+        rep.add(rule, f"{f.qualname}: {norm(c)[:60]}", False, ctx.where(f, c),
+                f"`{dotted(c.func)}()` of `{srcs[0][:40]}` has no default and no guard on that collection: when every entry of a directory was skipped as "
+                "unservable the collection is empty and the ValueError takes the whole listing down", key=f"{rule}|{f.qualname}|{norm(c)[:40]}")
+    if not found:
+        rep.ok(rule, f"no unguarded max()/min() over a collection in the handlers [{n} sites]", "pygopherd/handlers", "", key=f"{rule}|none", nontrivial=False)
+
+
 def check(ctx, rep):
     prog = ctx.prog
     eff = Effects(prog, ctx.resolver)
@@ -304,6 +355,9 @@ def check(ctx, rep):
                 "" if not failing_ else f"for an exception text such as `'100%.txt' does not exist` {failing_[0][1:-1]}: the FileNotFound for an entry with such a name "
                 "cannot even be constructed, and the error that escapes instead is not one the listing loop catches",
                 key="R12h|log-total", nontrivial=texts_ is not None)
+    rep.rule("R12k", "an all-unservable directory is an empty menu: max()/min() over a collection of entries has a default or a guard on that "
+             "same collection", floor=0)
+    empty_sequence_obligations(ctx, rep, "R12k")
     rep.rule("R12j", "a name bound inside a try body and read after it is bound on every way out of the try's handlers (otherwise the caught I/O "
              "error turns into UnboundLocalError, which no per-entry guard catches)", floor=1)
     unbound_after_try_obligations(ctx, rep, "R12j")
@@ -703,9 +757,10 @@ def vfs_predicate_obligations(ctx, rep, rule="R12f"):
         return
     kinds = [("a regular file", _stat.S_IFREG | 0o644), ("a directory", _stat.S_IFDIR | 0o755), ("a FIFO", _stat.S_IFIFO | 0o644),
              ("a socket", _stat.S_IFSOCK | 0o755), ("a character device", _stat.S_IFCHR | 0o666), ("a block device", _stat.S_IFBLK | 0o660),
-             ("nothing", None)]
-    want = {"isfile": lambda m: m is not None and _stat.S_ISREG(m), "isdir": lambda m: m is not None and _stat.S_ISDIR(m),
-            "exists": lambda m: m is not None}
+             ("nothing", None), ("a name longer than the file system takes (stat fails with OSError ENAMETOOLONG)", "OSError"),
+             ("a name below a directory that may not be searched (stat fails with PermissionError)", "PermissionError")]
+    want = {"isfile": lambda m: isinstance(m, int) and _stat.S_ISREG(m), "isdir": lambda m: isinstance(m, int) and _stat.S_ISDIR(m),
+            "exists": lambda m: isinstance(m, int)}
     for pred in ("isfile", "isdir", "exists"):
         m_ = prog.resolve_method(real, pred)
         if m_ is None:
@@ -717,13 +772,15 @@ def vfs_predicate_obligations(ctx, rep, rule="R12f"):
             def cv(call, target, st, _mode=mode):
                 name = target.name if target.kind == "ext" else None
                 if name in ("os.path.isfile", "os.path.isdir", "os.path.exists", "os.path.lexists", "os.path.islink"):
-                    if _mode is None:
+                    if _mode is None or isinstance(_mode, str):
                         return Const(False)
                     return Const({"isfile": _stat.S_ISREG(_mode), "isdir": _stat.S_ISDIR(_mode), "exists": True, "lexists": True,
                                   "islink": False}[name.split(".")[-1]])
                 if name in ("os.stat", "os.lstat"):
                     if _mode is None:
                         return AVal("raise", "FileNotFoundError")
+                    if isinstance(_mode, str):
+                        return AVal("raise", _mode)
                     return Const(_os.stat_result((_mode, 7, 1, 1, 0, 0, 5, 0, 0, 0)))
                 if name in ("os.fsencode", "os.fsdecode", "os.path.join", "os.path.normpath", "os.path.abspath") or \
                         (isinstance(call.func, ast.Attribute) and call.func.attr == "getfspath"):
